@@ -160,7 +160,7 @@ pub fn child(p: &Params) {
 
 const EXTREME: [&str; 14] = ["0", "-1", "-0", "99999999999", "18446744073709551615", "18446744073709551616", "-9223372036854775808", "9223372036854775807", "1e308", "1.5", "-99999999999999999999999", "null", "true", "\"5\""];
 const TEMPIDS: [&str; 8] = ["\"!A0\"", "\"!A99999999999\"", "\"!D99999999999\"", "\"!R7\"", "\"!A-1\"", "\"!A18446744073709551615\"", "\"!K3\"", "\"!\""];
-const TYPES: [&str; 12] = ["TextSelector", "AnnotationSelector", "ResourceSelector", "DataSetSelector", "DataKeySelector", "AnnotationDataSelector", "MultiSelector", "CompositeSelector", "DirectionalSelector", "Annotation", "AnnotationData", "BeginAlignedCursor"];
+const TYPES: [&str; 13] = ["InternalRangedSelector", "TextSelector", "AnnotationSelector", "ResourceSelector", "DataSetSelector", "DataKeySelector", "AnnotationDataSelector", "MultiSelector", "CompositeSelector", "DirectionalSelector", "Annotation", "AnnotationData", "BeginAlignedCursor"];
 
 /// line based edits of a pretty-printed JSON document (keeps the order of fields, which matters to the reader)
 fn mutate_json(rng: &mut Rng, text: &str) -> (String, String) {
@@ -303,7 +303,7 @@ fn mutate_csv(rng: &mut Rng, text: &str) -> (String, String) {
             "bad-number"
         }
         4 => {
-            rows[r][c] = (*rng.pick(&["TextSelector;TextSelector", "MultiSelector", "CompositeSelector;TextSelector", "DataKeySelector", "AnnotationDataSelector", "RangedTextSelector", "Nonsense", "DirectionalSelector;AnnotationSelector;TextSelector"])).to_string();
+            rows[r][c] = (*rng.pick(&["TextSelector;TextSelector", "MultiSelector", "CompositeSelector;TextSelector", "DataKeySelector", "AnnotationDataSelector", "RangedTextSelector", "Nonsense", "DirectionalSelector;AnnotationSelector;TextSelector", "InternalRangedSelector", "internalrangedselector", "InternalRangedSelector;TextSelector", "CompositeSelector;InternalRangedSelector", "textselector", "Annotation"])).to_string();
             "selector-kind-list"
         }
         5 => {
